@@ -107,11 +107,13 @@ CHECKS.update({
         technique="TLA+ framing model + TLC; independent wire decoder; TLC monitors over every datagram"),
     "C10": dict(
         category="model_checking",
-        text=("Frame.tla!LenBound (every datagram incl. parity, OOB and AEAD tag <= session MTU) and KcpCore's OutSizeOK are model-checked; "
-              "SetMtuOp follows the repaired KCP.SetMtu. On the code: SetMtu with boundary values at random points of bidirectional "
-              "transfers, OOB of maximum size and +1; the wire monitor compares every datagram with the MTU in force, the core's output "
-              "sizes are judged in the core traces (C10_OutSize)."),
-        design_ref="§4 C10", note="A genuine defect (SetMtu accepting values it cannot honour) was repaired; see known_findings.json.",
+        text=("Frame.tla!LenBound (every datagram incl. parity, OOB and AEAD tag <= the session MTU in force, with SetMtu as an action "
+              "between any two requests -- the pinned variant without the parity guard must still be refuted by TLC) and KcpCore's "
+              "OutSizeOK are model-checked; SetMtuOp follows the repaired KCP.SetMtu. On the code: SetMtu with boundary values at random "
+              "points of bidirectional transfers, OOB of maximum size and +1; the wire monitor compares every datagram with the MTU in "
+              "force, the core's output sizes are judged in the core traces (C10_OutSize); a deterministic witness re-checks the repaired "
+              "parity defect."),
+        design_ref="§4 C10", note="Two genuine defects (SetMtu accepting values it cannot honour; parity of a group open at a shrinking SetMtu) were repaired; see known_findings.json.",
         technique="TLA+ length arithmetic + TLC; wire-length monitor via TLC trace validation"),
     "C11": dict(
         category="model_checking",
@@ -199,6 +201,22 @@ CHECKS.update({
         design_ref="§4 C18", note=CORE_NOTE,
         technique="TLA+ clean-path instance + TLC; virtual-time clean runs validated by TLC monitors"),
 })
+
+CHECKS["C14"] = dict(
+    category="exploration",
+    text=("RaceProgs.tla spans the space of concurrent programs over the 24 supported public methods of UDPSession and Listener: TLC "
+          "enumerates every unordered pair (thorough: under every cipher/FEC class, on the dialled and on the accepted session) and samples "
+          "triples; each program runs its methods on separate goroutines against one session while traffic flows both ways on it and on a "
+          "neighbour session of the same listener (shared pool, entropy source, counters, scheduler), with the shared entropy source "
+          "positioned just before its periodic reseed, in real time over the in-memory network, built with -race. A report of the Go race "
+          "detector with a kcp-go frame is the violation. A genuine defect (GetOOBMaxSize / SetLogger outside the session mutex) was "
+          "repaired. Exploration, not model checking: a TLA+ model cannot observe unsynchronised memory accesses; the specification "
+          "only supplies the program space."),
+    design_ref="§4 C14, §6",
+    note=("The judgement 'data race' is the Go race detector's (happens-before over the accesses that actually executed); a race on a path "
+          "no program reaches is not seen. Deprecated methods excluded as the property says. Reports confined to harness frames are exit 2."),
+    technique="TLC-enumerated concurrent programs (RaceProgs.tla) executed under the Go race detector",
+)
 
 NOT_YET = {}
 
